@@ -12,9 +12,11 @@ pub mod c11;
 pub mod c12;
 pub mod c13;
 pub mod c14;
+pub mod c16;
 pub mod c17;
 pub mod c18;
 pub mod c19;
+pub mod c20;
 
 use crate::Prop;
 
@@ -33,9 +35,11 @@ pub fn lookup(id: &str) -> Option<Box<dyn Prop>> {
         "C12" => Box::new(c12::C12),
         "C13" => Box::new(c13::C13),
         "C14" => Box::new(c14::C14),
+        "C16" => Box::new(c16::C16),
         "C17" => Box::new(c17::C17),
         "C18" => Box::new(c18::C18),
         "C19" => Box::new(c19::C19),
+        "C20" => Box::new(c20::C20),
         _ => return None,
     })
 }
